@@ -281,15 +281,16 @@ bool FilePersister::put(const unsigned seqnum, const f8String& what)
 		glout_error << "Error: could not seek to end for seqnum persitence: " << _dbFname;
 		return false;
 	}
+	// data first, then the index record that makes it visible: an index record never refers to bytes not yet written
+	if (write (_fod, what.data(), static_cast<unsigned>(what.size())) != static_cast<ssize_t>(what.size()))
+	{
+		glout_error << "Error: could not write record for seqnum " << seqnum << " to: " << _dbFname;
+		return false;
+	}
 	IPrec iprec(seqnum, offset, static_cast<unsigned>(what.size()));
 	if (write (_iod, static_cast<void *>(&iprec), sizeof(IPrec)) != sizeof(IPrec))
 	{
 		glout_error << "Error: could not write index record for seqnum " << seqnum << " to: " << _dbIname;
-		return false;
-	}
-	if (write (_fod, what.data(), static_cast<unsigned>(what.size())) != static_cast<ssize_t>(what.size()))
-	{
-		glout_error << "Error: could not write record for seqnum " << seqnum << " to: " << _dbFname;
 		return false;
 	}
 
